@@ -97,8 +97,18 @@ def gen_case(rng, tier, entry=None, clean=False):
     mi = gen_mi(rng, F) if (mode == "feature" or rng.chance(0.3)) else None
     case = dict(entry=entry, seed=rng.randrange(1 << 30), B=B, F=F, D=D, mode=mode, num_classes=nc,
                 target=tk, y=y, beta=beta, mi=mi, x=x)
+    # low rate, outside the quantifier: scores with a ZERO sum (all-nan target, no raise)
+    if mode == "feature" and not clean and rng.chance(0.04):
+        if F >= 2 and rng.chance(0.3):
+            v = rng.pick([1, 2, 4])
+            z = [0] * F
+            i, j = rng.sample(range(F), 2)
+            z[i], z[j] = v, -v
+            case["mi"] = [[m, 1] for m in z]
+        else:
+            case["mi"] = [[0, 1]] * F
     # low-rate malformed stream (direct calls only): a failed assert / one_hot range error
-    if entry == "direct" and not clean and rng.chance(0.03):
+    elif entry == "direct" and not clean and rng.chance(0.03):
         if mode == "feature" and rng.chance(0.5):
             case["mi"] = None
         elif tk == "class":
@@ -317,6 +327,12 @@ def expects_raise(case):
     return None
 
 
+def zero_sum_mi(case):
+    """feature mode with scores whose sum is zero: outside the property's quantifier (scores >= 0, positive sum);
+    the code returns an all-nan target without raising, the model says YMNaN"""
+    return case["mode"] == "feature" and case["mi"] is not None and sum(fr_of(m) for m in case["mi"]) == 0
+
+
 def fail(key, what, **kw):
     d = dict(key=key, what=what)
     d.update(kw)
@@ -342,9 +358,11 @@ def analyse(case, obs):
         return fail(f"y-shape:{tag}", "mixed target has the wrong shape", expected=want_yshape,
                     observed=obs["y_shape"]), None
     ym = obs["y"] if case["target"] == "class" else [[v] for v in obs["y"]]
-    if any(v is None for r in ym for v in r):
-        return fail(f"target-not-finite:{tag}", "mixed target contains nan/inf", observed=obs["y"]), None
-    ym = [[fr_of(v) for v in r] for r in ym]
+    nan_case = zero_sum_mi(case)
+    if not nan_case:
+        if any(v is None for r in ym for v in r):
+            return fail(f"target-not-finite:{tag}", "mixed target contains nan/inf", observed=obs["y"]), None
+        ym = [[fr_of(v) for v in r] for r in ym]
     scale = max([Fr(1)] + [abs(v) for r in tg for v in r])
     tol = TOL * scale
 
@@ -391,6 +409,11 @@ def analyse(case, obs):
         mask = [[own[i][0][k] for k in range(D)] for i in range(B)]
     else:
         mask = None
+    if nan_case:
+        # only the feature tensor can be traced; the target is not a number
+        return None, dict(partner=[i if p is None else p for i, p in enumerate(px)], mask=mask, lam=[Fr(1, 2)] * B,
+                          self_rows=sum(p is None for p in px), mixed_rows=sum(p is not None for p in px),
+                          own=own, tol=tol, nan=all(v is None for r in ym for v in r))
     # clause 4: class targets are distributions
     if case["target"] == "class":
         for i in range(B):
@@ -475,8 +498,8 @@ def oracle_one(case, obs):
         return fail("harness-no-hook-point", "ExcelFormer has no StypeWiseFeatureEncoder / ExcelFormerConv submodule "
                     "to observe the mixed tensor at")
     why = expects_raise(case)
-    if why:
-        return None          # outside the property's quantifier; raise/no-raise is compared by the correspondence
+    if why or zero_sum_mi(case):
+        return None          # outside the property's quantifier; the outcome is compared by the correspondence
     if not obs["ok"]:
         return fail(f"raises:{case['mode'] or 'off'}:{case['target']}", f"feature_mixup raised {obs.get('exc')} on a "
                     "valid batch", observed=obs)
@@ -559,6 +582,8 @@ def shrink_one(case):
 
 
 def sig_one(case, obs):
+    if zero_sum_mi(case):
+        return json.dumps(["zero-sum-mi", case["entry"], case["target"], case["B"], case["F"], obs.get("ok")])
     if expects_raise(case):
         return json.dumps(["raise", case["entry"], case["mode"], case["target"], obs.get("ok")])
     if not obs.get("ok"):
@@ -597,6 +622,7 @@ def stats(cases, obss):
     d = {"total": 0, "entry": {}, "mode": {}, "target": {}, "B": {}, "F": {}, "D": {}, "beta": {}, "raise_cases": 0,
          "rows": 0, "rows_mixed": 0, "rows_self_or_unconstrained": 0, "rows_with_partner_entries": 0,
          "distinct_targets": 0}
+    d["zero_sum_mi_cases"] = sum(1 for c, _ in flatten(cases, obss) if zero_sum_mi(c))
     d["multi_call_cases"] = sum(1 for c in cases if c is not None and c["entry"] == "multi")
     d["calls_with_mi_tensor_refreshed_in_place"] = sum(
         1 for c in cases if c is not None and c["entry"] == "multi" for sub in c["calls"]
@@ -641,6 +667,11 @@ def coq_term_one(case, obs):
         return None
     x, y, nc, mt, mi = coq_inputs(case)
     B, F, D = case["B"], case["F"], case["D"]
+    if zero_sum_mi(case):
+        # outside the property's quantifier (scores >= 0 with positive sum): what a zero-sum score vector yields
+        # (the current code: nan targets) is not demanded of the implementation -- a harmless rewrite may differ
+        # there.  The model's YMNaN branch documents the current behaviour (Props/C19.v nan_target_iff_zero_sum_mi).
+        return None
     if not obs["ok"]:
         # raise / no-raise: any well-shaped draws will do (the raising conditions do not depend on them)
         n = F if case["mode"] == "feature" else D
@@ -649,8 +680,8 @@ def coq_term_one(case, obs):
         return f"mixup_raises {x} {y} {nc} {mt} {mi} {dr}"
     f, rec = analyse(case, obs)
     if rec is None:
-        if expects_raise(case):
-            return "false"           # model raises, implementation returned
+        if expects_raise(case) or zero_sum_mi(case):
+            return "false"           # model raises, implementation returned / feature tensor not traceable
         return None                  # the oracle reports the structural failure
     if case["mode"] == "feature":
         rates = [Fr(1, 2)] * B
@@ -666,7 +697,11 @@ def coq_term_one(case, obs):
     dr = (f"{{| rates := {C.clist(rates, cq)}; perm := {C.clist(rec['partner'], C.cnat)}; "
           f"unif := {C.clist(unif, lambda r: C.clist(r, cq))} |}}")
     xo = C.clist(obs["x"], lambda r: C.clist(r, lambda c: C.clist(c, C.cz)))
-    if case["target"] == "class":
+    if zero_sum_mi(case):
+        if not rec["nan"]:
+            return "false"           # the model says: every target entry is nan
+        yo = "YMNaN"
+    elif case["target"] == "class":
         yo = f"(YMClass {C.clist(obs['y'], lambda r: C.clist([fr_of(v) for v in r], cq))})"
     else:
         yo = f"(YMScalar {C.clist([fr_of(v) for v in obs['y']], cq)})"
@@ -682,3 +717,34 @@ def coq_term(case, obs):
     terms = [coq_term_one(sub, o) for sub, o in zip(case["calls"], obs["calls"])]
     terms = [t for t in terms if t is not None]
     return "(" + " && ".join(terms) + ")" if terms else None
+
+
+def sanity(cases, obss):
+    """Fail-closed distribution check: a run whose inputs degenerate must not report green."""
+    d = stats(cases, obss)
+    probs = []
+    n = d["total"]
+    if n == 0:
+        return ["no calls"]
+    for k, vals in (("mode", ["None", "feature", "hidden"]), ("target", ["class", "scalar_f", "scalar_i"]),
+                    ("entry", ["direct", "forward"])):
+        for v in vals:
+            if d[k].get(v, 0) == 0:
+                probs.append(f"{k} {v} never drawn")
+    for k, hi in (("B", 6), ("F", 4), ("D", 4)):
+        for v in range(1, hi + 1):
+            if d[k].get(str(v), 0) == 0:
+                probs.append(f"{k}={v} never drawn")
+    if d["raise_cases"] > 0.2 * n:
+        probs.append(f"{d['raise_cases']} of {n} calls raise")
+    if d["rows"] == 0 or d["rows_mixed"] < 0.2 * d["rows"]:
+        probs.append(f"only {d['rows_mixed']} of {d['rows']} rows are visibly mixed with a partner")
+    if d["rows_with_partner_entries"] < 0.15 * max(1, d["rows"]):
+        probs.append("too few rows take feature entries from their partner")
+    if d["distinct_targets"] < 0.5 * n:
+        probs.append("fewer than half of the calls have all-distinct targets (partner recovery would be ambiguous)")
+    if d["multi_call_cases"] == 0 or d["calls_with_mi_tensor_refreshed_in_place"] == 0:
+        probs.append("no multi-call sequence with an in-place refreshed mi_scores tensor")
+    if d["zero_sum_mi_cases"] == 0:
+        probs.append("zero-sum mi_scores never drawn")
+    return probs
